@@ -380,6 +380,10 @@ def _irr(case, res):
     if abs(o[1] - root) > 1e-6:
         # accept an equally good root by residual (flat objective)
         tot = math.fsum(abs(c) for c in flows)
-        if abs(resid(o[1])) > 1e-6 * tot or abs(o[1] - root) > 1e-4:
+        try:
+            rs = abs(resid(o[1])) if o[1] > -1 else float('inf')
+        except (ZeroDivisionError, OverflowError, ValueError):
+            rs = float('inf')
+        if rs > 1e-6 * tot or abs(o[1] - root) > 1e-4:
             _fail(res, '%s:wrong-root:%s' % (k, size), root, o, note)
     return res
